@@ -331,7 +331,13 @@ func TestVerifC18Header(t *testing.T) {
 		rd := vReaderStream(w.W.Bytes())
 		got, err := readControlHeader(rd)
 		if err != nil {
-			rec.Fail(rt, "header-decode-error", fmt.Sprintf("manifest with %d items: %v", len(m.Items), err))
+			sig := "header-decode-error"
+			if hasInvalid {
+				// bytes that are not UTF-8 come back as U+FFFD (3 bytes each): the altered path may
+				// additionally exceed the path limit and be refused - same root cause
+				sig = "manifest-json-invalid-utf8"
+			}
+			rec.Fail(rt, sig, fmt.Sprintf("manifest with %d items: %v", len(m.Items), err))
 			return
 		}
 		if got.Items == nil {
